@@ -545,7 +545,7 @@ func mutateReq(r *hx.Rand, q *sreq, udpPort *int) string {
 // UDP, TCP) in every order, optionally while a legitimate multicast reader is playing on another
 // connection. The second SETUP must be refused (400, connection closed) and must leave the stream's
 // multicast bookkeeping alone.
-func mixScenario(r *hx.Rand, udpPort *int, idx int) (scenario, []string) {
+func mixScenario(r *hx.Rand, udpPort *int, idx int, k int) (scenario, []string) {
 	tr := func(kind int) string {
 		switch kind {
 		case 0:
@@ -559,8 +559,8 @@ func mixScenario(r *hx.Rand, udpPort *int, idx int) (scenario, []string) {
 	}
 	names := []string{"mcast", "udp", "tcp"}
 	pairs := [][2]int{{0, 1}, {1, 0}, {0, 2}, {2, 0}, {1, 2}, {2, 1}}
-	p := pairs[r.Intn(len(pairs))]
-	legit := r.Intn(2) == 0
+	p := pairs[k%len(pairs)]
+	legit := (k/len(pairs))%2 == 1
 	var sc scenario
 	sc.carriers = []int{carPlain}
 	var steps []step
@@ -604,8 +604,9 @@ func mixScenario(r *hx.Rand, udpPort *int, idx int) (scenario, []string) {
 
 // genScenario derives a scenario from valid skeletons by grammar-level mutation.
 func genScenario(r *hx.Rand, cfg childCfg, udpPort *int, idx int) (scenario, []string) {
-	if cfg.Mcast && strings.Contains(cfg.Handlers, "S") && r.Intn(5) == 0 {
-		return mixScenario(r, udpPort, idx)
+	if cfg.Mcast && strings.Contains(cfg.Handlers, "S") && idx%5 == 2 {
+		// every fifth scenario; the (order, legitimate reader) combinations are enumerated, not sampled
+		return mixScenario(r, udpPort, idx, idx/5)
 	}
 	var sc scenario
 	var tags []string
